@@ -25,7 +25,7 @@ R_both == {[hr |-> FALSE, r |-> ""], [hr |-> TRUE, r |-> "use other"]}
 R_all == R_both \cup {[hr |-> TRUE, r |-> ""], [hr |-> TRUE, r |-> "say \"no\""]}
 D_one == {"plain text"}
 D_all == {"plain text", "two\nlines", "with \"quotes\""}
-Dir_small == {[name |-> "tag", locs |-> <<"FIELD_DEFINITION", "OBJECT">>, rep |-> TRUE],
+Dir_small == {[name |-> "tag", locs |-> <<"FIELD_DEFINITION", "OBJECT", "SCALAR">>, rep |-> TRUE],
               [name |-> "auth", locs |-> <<"QUERY", "FIELD">>, rep |-> FALSE]}
 Dir_all == Dir_small \cup {[name |-> "everywhere", rep |-> FALSE,
                             locs |-> <<"QUERY", "MUTATION", "SUBSCRIPTION", "FIELD", "FRAGMENT_DEFINITION", "FRAGMENT_SPREAD",
@@ -41,7 +41,9 @@ A_Features == {"fields", "implements", "unions"}
 B_Slots == {[name |-> "In", kind |-> "INPUT_OBJECT"], [name |-> "Color", kind |-> "ENUM"]}
 B_Features == {"args", "inputs", "defaults", "enums", "deprecate"}
 \* ---- C: directives, roots, descriptions, scalars
-C_Slots == {[name |-> "Mutation", kind |-> "OBJECT"], [name |-> "Other", kind |-> "OBJECT"], [name |-> "Date", kind |-> "SCALAR"]}
+\*         (a type named Query can only be added while the query root is renamed: an unrelated type with a default root name)
+C_Slots == {[name |-> "Mutation", kind |-> "OBJECT"], [name |-> "Other", kind |-> "OBJECT"], [name |-> "Date", kind |-> "SCALAR"],
+            [name |-> "Query", kind |-> "OBJECT"]}
 C_Features == {"directives", "tags", "roots", "describe", "scalars", "deprecate", "args"}
 \* ---- D: the interface lattice (three interfaces implementing each other, objects implementing chains of them)
 D_Slots == {[name |-> "Obj", kind |-> "OBJECT"], [name |-> "Node", kind |-> "INTERFACE"],
@@ -49,6 +51,7 @@ D_Slots == {[name |-> "Obj", kind |-> "OBJECT"], [name |-> "Node", kind |-> "INT
 D_Features == {"implements"}
 \* ---- simulation: everything
 Sim_Slots == {[name |-> "Obj", kind |-> "OBJECT"], [name |-> "Other", kind |-> "OBJECT"], [name |-> "Mutation", kind |-> "OBJECT"],
+              [name |-> "Query", kind |-> "OBJECT"],
               [name |-> "Subscription", kind |-> "OBJECT"],
               [name |-> "Node", kind |-> "INTERFACE"], [name |-> "Entity", kind |-> "INTERFACE"], [name |-> "Named", kind |-> "INTERFACE"],
               [name |-> "U", kind |-> "UNION"], [name |-> "V", kind |-> "UNION"],
